@@ -13,7 +13,10 @@ Input classes (all deterministic; random parts from random.Random(ctx.seed)):
   (a) corpus of valid programs (construct-coverage templates + seeded random programs + /repo/example + tests fixtures)
   (b) token-level corruptions of (a): delete / duplicate / swap-adjacent / replace one token at each position;
       char-level truncations at every prefix length of a few programs; random unicode strings; meta attribute lines
-  (c) one generator per listed invalid class, the construct embedded at several nesting positions
+  (c) one generator per listed invalid class, the construct embedded at several nesting positions, AND placed after every kind
+      of complete valid construct (each loop kind incl. `while not`, for, forever, nested loops; switch; if/elseif/else; with;
+      message switch; macro call; label/jump; return) - later in the same routine, in a later routine, in a later macro, and in
+      the next compile() of the same compiler object (state that a finished construct leaves on the compiler's stacks)
   (d) degenerate routines (only exception TYPE is checked - the property allows success)
   (e) import graphs with <= 3 files in a scratch directory (cycles, self import, missing file, routines in imported file,
       lookup paths)
